@@ -154,6 +154,35 @@ def build(units):
                   tactic="dual_eq_den hc with hJ" if N > 1 else "dual_eq_den1 hc",
                   real_tail=("  all_goals (simp only [gen_simp] at hJ; dual_simp; exact hJ)\n" if N > 1 else
                              "  all_goals (dual_simp; first | exact mul_ne_zero hF1 hF2 | exact mul_ne_zero hF0 hF2 | exact mul_ne_zero hF0 hF1)\n"))
+        # ---- PK2 derivative -> PK1 derivative (composite function; algebraic form only)
+        dS = [["dS%d%d" % (i, j) for j in range(S)] for i in range(S)]
+        cD = "(Dual.const c) (Dual.const c3) (dualFns K)"
+        Fd = " ".join(dual(a, b) for a, b in zip(F, h))
+        lets = []
+        for j in range(S):
+            lets.append("    let e%d : K := (Gen.%st_GL_r%d %s %s).eps" % (j, d, j, cD, Fd))
+        for i in range(S):
+            lets.append("    let S%d : Dual K := ⟨Gen.%spk2_r%d c c3 fn %s %s, dot %s %s⟩" % (
+                i, d, i, " ".join(s), " ".join(F), lst(dS[i]), lst(["e%d" % j for j in range(S)])))
+        for k in range(T):
+            lets.append("    let u%d : Dual K := Gen.%sunsyme_r%d %s %s" % (k, d, k, cD, " ".join("S%d" % i for i in range(S))))
+        w.alg.setdefault("PK2", []).append(
+            "/-- `convertSecondPiolaKirchhoffStressDerivativeToFirstPiolaKirchoffStressDerivative(dS, F, s)` is the derivative with respect to `F` of\n"
+            "`P(F) = F * unsyme(S(E(F)))`, `E = computeGreenLagrangeTensor(F)`, for any `S(E)` whose derivative at the point is `dS` and whose value is\n"
+            "`convertCauchyStressToSecondPiolaKirchhoffStress(s, F)`: `eᵢ` is the ε part of `E(F + ε h)`, `Sᵢ = S₀ᵢ + ε (dS · e)ᵢ`, `u = unsyme(S)` -/\n"
+            "theorem %sdpk1_pk2 (hc : c * c = 2) (%s : K) :\n%s\n"
+            "    (Gen.%st_prod_all %s %s %s).map Dual.eps\n"
+            "      = mv %d (Gen.%sdpk1_pk2_all c c3 fn %s) %s := by\n"
+            "  dsimp only\n%s"
+            "  simp only [gen_simp] at %s\n"
+            "  dual_simp\n"
+            "  simp only [%s]\n"
+            "  repeat' apply And.intro\n"
+            "  all_goals (first | rfl | mandel_ring hc)\n" % (
+                d, " ".join(sum(dS, []) + F + s + h), "\n".join(lets), d, cD, Fd, " ".join("u%d" % k for k in range(T)),
+                T, d, " ".join(sum(dS, []) + F + s), lst(h),
+                "".join("  generalize hT%d : Gen.%spk2_r%d c c3 fn %s %s = T%d\n" % (i, d, i, " ".join(s), " ".join(F), i) for i in range(S)),
+                " ".join("hT%d" % i for i in range(S)), ", ".join("hT%d" % i for i in range(S))))
     return w
 
 
@@ -193,6 +222,8 @@ def main():
                ["GenN1", "GenN2", "GenN3b", "GenN3c", "GenN3d"]),
         "PK": ("PropsPK", "Part 4: first Piola-Kirchhoff stress derivative conversions.",
                ["GenN1", "GenN2", "GenN3b", "GenN3e", "GenN3f"]),
+        "PK2": ("PropsPK2", "Part 5: second Piola-Kirchhoff stress derivative to first Piola-Kirchhoff stress derivative.",
+                ["GenN1", "GenN2", "GenN3b", "GenN3g"]),
     }
     for key, (mod, what, gens) in files.items():
         with open(os.path.join(out, mod + ".lean"), "w") as f:
